@@ -267,6 +267,7 @@ _u4('C01', 'Proof (sequential model) of the publish protocol and of what lookups
     'read-only, freshly stamped source holding bytes supplied for exactly that key; only a file no reader can see is ever written (preconditions of the copy and populate stubs); published '
     'inodes are never written or made writable; no write changes the bytes of any file (bytes_kept). Every handle returned by CacheDir::get, plain/sharded get, ReadOnlyCache::get, '
     'Cache::get::doit and Cache::get_or_update denotes an inode whose bytes are a value supplied for exactly that key (postcondition, from World.valid).',
+    replayer=_native('c13', [], []),
     not_covered=[CONC_NC, SHARD_NC, STACK_NC])
 _u4('C19', 'Proof that every handle returned by CacheDir::get, plain/sharded get, ReadOnlyCache::get, Cache::get::doit and Cache::get_or_update is positioned at offset 0, and is read-only '
     'unless it is the fresh throw-away file of a cache without write side; that finalize_tempfile forces mode 0444 whatever the umask (fchmod with the constant 0o444, bit-vector proof that '
